@@ -20,6 +20,7 @@ META = {
         "ended and no acknowledgement of it is still in flight). Extra families: acks that return a Task; a broker stream "
         "that raises between messages. Non-vacuity: the maximum observed must equal A+P+1 in every "
         "configuration. distinct_nontrivial = distinct (A,P,max unfinished) saturation outcomes + terminal logs."
+        " Faults in a saturated worker: the first message of a backlog of A+P+4 suffers one fault of the fault-overlap alphabet (mc/fault_overlap.py: hook / ack / backend raising, backend failing once, body outcomes); the bound holds at every TAKEN event."
     ),
     "assumptions": [
         "asyncio semantics as implemented by BaseEventLoop (only clock/selector replaced)",
@@ -63,6 +64,18 @@ def scenarios(tier: str) -> List[Dict[str, Any]]:
             msgs[pos + 2] = {"kind": "stream_error"}
             out.append({"A": a, "P": p, "N": None, "stream": "infinite", "stop": False, "level": 0, "max_body": 2, "msgs": msgs,
                         "no_saturation_required": True})
+    # a fault in one of the running messages of a saturated worker with backlog (mc/fault_overlap.py): the
+    # bound holds whatever a failing hook, ack, result backend or task does to that one message
+    from mc import fault_overlap as fo
+
+    for a, p in (((2, 0), (2, 1)) if tier == "quick" else ((2, 0), (2, 1), (3, 0), (3, 1), (2, 2))):
+        for f in fo.faults(tier):
+            if f[0] in ("stream", "junk") or (tier == "quick" and f[0] == "hook" and f[1][1] != "raise"):
+                continue
+            sc = fo.scenario(f, a=a, p=p, stop=False, gate_pre=False, backlog=a + p + 2)
+            sc["max_body"] = 3
+            sc["no_saturation_required"] = f[0] == "body" and f[1] == "timeout"
+            out.append(sc)
     l1 = [(1, 0), (1, 1), (2, 0), (2, 1), (3, 0)] if tier == "quick" else [(1, 0), (1, 1), (2, 0), (2, 1), (1, 2), (3, 0), (3, 1), (2, 2)]
     for a, p in l1:
         # n = bound + 1 + completions: a surplus permit created by the max_body-th completion (or by two
